@@ -671,7 +671,7 @@ class Fn:
         params = [c for c in fdecl['inner'] if c['kind'] == 'ParmVarDecl']
         if len(params) != len(args):
             raise Unsupported('argument count of ' + fname)
-        binds, back, records = [], [], []
+        binds, back, records, outs_alias = [], [], [], []
         for p, a in zip(params, args):
             q = p['type'].get('desugaredQualType', p['type']['qualType'])
             rec = self.tu.record_of(q)
@@ -683,7 +683,16 @@ class Fn:
                     raise Unsupported('structure argument of ' + fname + ' that is not one of the caller\'s own structure parameters of that type')
                 records.append((p, q, rec, cn))
             else:
-                binds.append((p, self.bind(p['name'], conv(self.ev(a, env), self.tu.vtype(a), self.tu.vtype(p)))))
+                sa = a
+                while sa.get('kind') in ('ParenExpr', 'ImplicitCastExpr', 'CStyleCastExpr') and sa.get('inner'):
+                    sa = sa['inner'][0]
+                tgt = strip(sa['inner'][0]) if sa.get('kind') == 'UnaryOperator' and sa.get('opcode') == '&' and sa.get('inner') else None
+                if tgt is not None and tgt.get('kind') == 'DeclRefExpr' and tgt['referencedDecl']['name'] in env \
+                        and tgt['referencedDecl']['name'] not in self.local_records:
+                    # `&x` of a caller's scalar / pointer variable handed to an out-parameter: the callee's `*param` IS that variable
+                    outs_alias.append((p['name'], tgt['referencedDecl']['name']))
+                else:
+                    binds.append((p, self.bind(p['name'], conv(self.ev(a, env), self.tu.vtype(a), self.tu.vtype(p)))))
         dd = self.dead(env)
         cenv = {'$done': dd if dd in ('false', 'true') else self.bind('skip', dd), '$ret': None, '$exit': 'false',
                 '$ub': env['$ub'], '$exh': env['$exh'], '$mem': env['$mem'], '$path': env.get('$path', 'true')}
@@ -693,6 +702,9 @@ class Fn:
         for p, v in binds:
             cenv[p['name']] = v
             self.ptype[p['name']] = p['type'].get('desugaredQualType', p['type']['qualType'])
+        for pn, cv in outs_alias:
+            cenv['*' + pn] = env[cv]
+            back.append((cv, '*' + pn))
         for p, q, rec, cn in records:
             self.ptype[p['name']] = q
             self.partial[p['name']] = rec[1]
